@@ -238,12 +238,12 @@ theorem item_equiv (M : Matcher) (hM : ∀ x, M.run id62Pattern x = id62Shape x)
     intro x hx
     cases x <;> simp [Scalar.hasKind, Schema.isMessage] at hx
     cases hasRules <;> simp [evalOpt, evalItem, j5Item, Schema.isMessage]
-  | date lr =>
+  | date rules lr =>
     refine ⟨_, rfl, rfl, ?_⟩
     intro x hx
     cases x <;> simp [Scalar.hasKind, Schema.isMessage] at hx
     simp [evalOpt, j5Item, Schema.isMessage]
-  | decimal lr =>
+  | decimal rules lr =>
     refine ⟨_, rfl, rfl, ?_⟩
     intro x hx
     cases x <;> simp [Scalar.hasKind, Schema.isMessage] at hx
